@@ -243,6 +243,12 @@ pub fn run_part_a(rep: &mut Report) {
             cases.push(vec![s.clone(), s.clone()]);
         }
     }
+    // infeasible (infinite) and signed-zero objective values in the archive and in the target population
+    for extra in [vec![(0u32, f64::INFINITY)], vec![(0, f64::INFINITY), (1, 1.0)], vec![(0, f64::INFINITY), (1, f64::INFINITY)], vec![(0, 0.0), (1, -0.0)], vec![(0, 1.0), (1, f64::INFINITY), (2, 0.0)]] {
+        cases.push(vec![extra.clone()]);
+        cases.push(vec![extra.clone(), extra.clone()]);
+        cases.push(vec![extra.clone(), vec![(20, 2.0), (21, f64::INFINITY)]]);
+    }
     p.bound("population_sequences", cases.len() as u64).bound("capacities", 5);
     let res: Vec<Vec<(String, String, Value)>> = cases
         .par_iter()
